@@ -38,7 +38,7 @@ class Spec(core.PropSpec):
         for _ in range(ro.choice([0, 0, 1, 2, 4])):
             ops.append(["pre", ro.choice(["A", "B"]), ro.randint(0, 5)])
         ops.append(["inject"])
-        n_calls = ro.randint(2, 6)
+        n_calls = ro.randint(2, 6 if tier == "quick" else 14)
         for i in range(n_calls):
             r = ro.random()
             if r < 0.25:
